@@ -16,6 +16,10 @@ type Plugin struct {
 	Peer string
 	// Caps is returned from GetCapabilities.
 	Caps []corebgp.Capability
+	// CapsHook runs at the start of the call-th GetCapabilities (from 1): a plugin that keeps one list and
+	// edits it between connections.
+	CapsHook func(p *Plugin, call int)
+	capCalls int
 	// OpenNotif, if set, decides the OnOpenMessage return value.
 	OpenNotif func(rid netip.Addr, caps []corebgp.Capability) *corebgp.Notification
 	// Marker makes OnEstablished write a marker UPDATE (body = "MARK" + session).
@@ -84,6 +88,10 @@ func (p *Plugin) yield(site string) {
 }
 
 func (p *Plugin) GetCapabilities(c corebgp.PeerConfig) []corebgp.Capability {
+	p.capCalls++
+	if p.CapsHook != nil {
+		p.CapsHook(p, p.capCalls)
+	}
 	p.W.Append(Event{Kind: "GetCapabilities", Phase: "enter", Peer: p.Peer, Conn: -1})
 	p.yield("plugin.GetCapabilities")
 	p.W.Append(Event{Kind: "GetCapabilities", Phase: "exit", Peer: p.Peer, Conn: -1})
